@@ -130,7 +130,8 @@ macro_rules! impl_prob_common {
             self.into_sequential()
         }
         fn p_into_par(self) -> Self::Seq {
-            self.into_parallel()
+            // written so that it compiles whichever flavour into_parallel() returns (on the pinned tree: the sequential one)
+            self.into_parallel().into_sequential()
         }
     };
 }
